@@ -314,6 +314,13 @@ C09_Credit(pre, ev, post) ==
 (***************************************************************************)
 (* C10  max_spread / belief_price at system level                          *)
 (***************************************************************************)
+\* "decimals-normalised": by the decimals the assets really have - the registered decimals of a native denom, the cw20
+\* contract's own decimals - not by whatever copy the pair holds (the two agree as long as C17 holds)
+GuardDec(w, p, i) ==
+    LET info == InfoAt(w, p, i) IN
+    IF info.native THEN (IF info.id \in DOMAIN w.fac.native THEN w.fac.native[info.id] ELSE DecAt(w, p, i))
+    ELSE (IF info.id \in Tokens(w) THEN w.tok[info.id].decimals ELSE DecAt(w, p, i))
+
 C10_Applies(pre, ev) == C02_Applies(pre, ev) /\ SwapDecl(ev).ms.some
 C10_Swap(pre, ev) ==
     C10_Applies(pre, ev) =>
@@ -321,7 +328,7 @@ C10_Swap(pre, ev) ==
         EvResolvable(pre, ev, p, e) =>
             LET oi == PosIn(pre, p, EvOffer(pre, ev, p, e)) IN
             C10_Guard(SwapDecl(ev).bp, SwapDecl(ev).ms, e.offer_amount, e.return_amount, e.spread_amount,
-                      DecAt(pre, p, oi), DecAt(pre, p, 1 - oi), OkRes)
+                      GuardDec(pre, p, oi), GuardDec(pre, p, 1 - oi), OkRes)
 
 \* a swap rejected by the guard, judged on the quote taken in the same state
 C10_Rejected(pre, ev, q, ans) ==
@@ -330,7 +337,7 @@ C10_Rejected(pre, ev, q, ans) ==
         /\ PosIn(pre, q.pair, q.offer.info) >= 0) =>
         LET p == q.pair  oi == PosIn(pre, p, q.offer.info) IN
         C10_Guard(SwapDecl(ev).bp, SwapDecl(ev).ms, q.offer.amount, ans.ret, ans.spread,
-                  DecAt(pre, p, oi), DecAt(pre, p, 1 - oi), Rej("err:Max spread assertion"))
+                  GuardDec(pre, p, oi), GuardDec(pre, p, 1 - oi), Rej("err:Max spread assertion"))
 
 (***************************************************************************)
 (* C11  router delivers at least minimum_receive or reverts                *)
